@@ -33,6 +33,10 @@ func c12Config(rc *RunCtx) {
 	// the victim's user starts in whatever state the machine is in (the library has to abort for itself);
 	// 2 the peer aborts and then starts the run itself, the victim's user answers
 	rc.Cfg["recover"] = r.Intn(3)
+	// a quarter of the runs: Mallory is an insider - she knows the secret, so an honest run would
+	// succeed; what she sends deviates all the same (surplus elements, exponents outside [1,q)).
+	// A run that contained such a message must not end in success either.
+	rc.Cfg["insider"] = r.Intn(4) / 3
 }
 
 // injRand serves a chosen value for the k-th multi-byte read, the base reader otherwise.
@@ -132,6 +136,11 @@ func c12Run(rc *RunCtx) *Violation {
 	}
 	secretV := []byte("the victim's secret")
 	secretM := []byte("mallory does not know it")
+	insider := rc.Cfg["insider"] == 1
+	if insider {
+		secretM = secretV
+	}
+	tainted := "" // insider mode: the deviant message delivered in the run that is going on
 	var viol *Violation
 	deviantsProcessed := 0
 	askV := false
@@ -148,6 +157,15 @@ func c12Run(rc *RunCtx) *Violation {
 		}
 		if r.Kind == "smpanswer" || r.HasEvent("smp", "Abort") || r.HasEvent("smp", "Cheated") || r.HasEvent("smp", "Error") {
 			askV = false
+		}
+		if insider {
+			if r.HasEvent("smp", "Success") && tainted != "" {
+				viol = rc.Viol("deviant.success", fmt.Sprintf("the victim reports SMP success for a run that contained a deviant message (%s); the peer knew the secret, but the message was not an honest one", tainted), map[string]string{"kind": firstWord(tainted), "version": fmt.Sprint(rc.Cfg["version"])})
+			}
+			if r.HasEvent("smp", "Success") || r.HasEvent("smp", "Failure") || r.HasEvent("smp", "Abort") || r.HasEvent("smp", "Cheated") || r.HasEvent("smp", "Error") {
+				tainted = ""
+			}
+			return
 		}
 		if r.HasEvent("smp", "Success") {
 			last := "?"
@@ -258,6 +276,22 @@ func c12Run(rc *RunCtx) *Violation {
 				return Step{K: "dev", A: 0}, true
 			}
 		}
+		if insider {
+			switch {
+			case fly[1] > 0:
+				return Step{K: "deliver", A: 1, B: 0}, true
+			case askV:
+				return Step{K: "uanswer"}, true
+			case fly[0] > 0:
+				return Step{K: "deliver", A: 0, B: 1}, true
+			case r.Chance(1, 8):
+				return Step{K: "ustart", B: r.Intn(2)}, true
+			case r.Chance(1, 3):
+				return Step{K: "dev", A: 5, B: r.Intn(4), C: r.Intn(12), D: r.Intn(3)}, true
+			default:
+				return Step{K: "dev", A: 0, B: r.Intn(2)}, true
+			}
+		}
 		if r.Chance(1, 5) {
 			follow = 6 + r.Intn(8)
 		}
@@ -321,9 +355,41 @@ func c12Run(rc *RunCtx) *Violation {
 			r := v.SMPAbort()
 			w.Enqueue(v, r)
 		case "dev":
+			if s.A%6 == 5 {
+				// insider deviations that leave all proofs valid: surplus elements, exponents plus a multiple of q
+				if t, k := next(m.Rand, false); t != nil {
+					if _, mp, ok := mpisOf(t.Value); ok && len(mp) > 0 {
+						note := ""
+						if s.B%2 == 0 {
+							for i := 0; i <= s.D%3; i++ {
+								mp = append(mp, big.NewInt(int64(1000+i)))
+							}
+							note = fmt.Sprintf("surplus %s +%d elements", k, 1+s.D%3)
+						} else {
+							i := s.C % len(mp)
+							mp[i] = new(big.Int).Add(mp[i], new(big.Int).Mul(refotr.Q, big.NewInt(int64(1+s.D%3))))
+							note = fmt.Sprintf("plusq %s mpi%d+%dq", k, i, 1+s.D%3)
+						}
+						t.Value = smpValue(mp)
+						if insider {
+							tainted = note
+						}
+						rc.Probe("insider:" + firstWord(note) + ":" + k)
+						sendTLV(*t, note)
+					}
+				}
+				kinds += "dv5"
+				if viol != nil {
+					return viol
+				}
+				continue
+			}
 			switch s.A % 5 {
 			case 0: // honest protocol step with another secret
 				if t, k := next(m.Rand, s.B%2 == 1); t != nil {
+					if k == "smp1" {
+						tainted = "" // a new run begins: whatever deviated belonged to the one before
+					}
 					sendTLV(*t, "honest-"+k)
 				}
 			case 1: // one MPI replaced by a boundary value, proofs stale
